@@ -70,7 +70,8 @@ instance (n : Nat) (l : Local) : Decidable (outR n l) := by unfold outR; infer_i
 `transfer_index` and the number of threads -/
 def pot (n : Nat) (sc : SC) (ti : Int) (len : Nat) (l : Local) : Nat :=
   match l.pc with
-  | .idle | .casInit _ | .casJoin _ => 0
+  | .idle | .casInit _ | .casJoin _ | .helpCheckNext | .helpCheckTable | .helpLoadSc
+  | .helpLoadIndex _ | .acLoadTable _ | .acLoadNext _ | .acLoadIndex _ => 0
   | .swapNext => len * (8 * n + 5) + 8 * n + LV n sc + 21
   | .storeIndex => len * (8 * n + 5) + 8 * n + LV n sc + 20
   | .claimLoad =>
@@ -137,8 +138,19 @@ theorem pot_store {n : Nat} {sc : SC} {ti : Int} {len : Nat} {lu : Local}
 
 /-! ## every step of a thread inside the machinery decreases `mu` -/
 
-/-- thread is at one of the two entry CASes -/
-def isEntry (l : Local) : Bool := match l.pc with | .casInit _ | .casJoin _ => true | _ => false
+/-- number of steps a thread on its way into the machinery (at the initiation CAS, or somewhere on
+one of the two join paths up to and including the join CAS) needs at most to get in or give up -/
+def epot (l : Local) : Nat :=
+  match l.pc with
+  | .casInit _ | .casJoin _ => 1
+  | .helpLoadIndex _ | .acLoadIndex _ => 2
+  | .helpLoadSc | .acLoadNext _ => 3
+  | .helpCheckTable | .acLoadTable _ => 4
+  | .helpCheckNext => 5
+  | _ => 0
+
+/-- thread is on its way in: at one of the two entry CASes or on a join path -/
+def isEntry (l : Local) : Bool := epot l != 0
 
 /-- conclusion of the per-pc lemmas: `mu` decreases and `t` did not move to an entry CAS -/
 def Decr (s s' : State) (t : Nat) : Prop :=
@@ -358,6 +370,13 @@ theorem mu_decreases_inv {c : Nat} (h : Inv n0 nthreads stride s) (hst : 1 ≤ s
   | idle => simp [quiet, hpc] at hact
   | casInit sc => simp [quiet, hpc] at hact
   | casJoin sc => simp [quiet, hpc] at hact
+  | helpCheckNext => simp [quiet, hpc] at hact
+  | helpCheckTable => simp [quiet, hpc] at hact
+  | helpLoadSc => simp [quiet, hpc] at hact
+  | helpLoadIndex sc => simp [quiet, hpc] at hact
+  | acLoadTable sc => simp [quiet, hpc] at hact
+  | acLoadNext sc => simp [quiet, hpc] at hact
+  | acLoadIndex sc => simp [quiet, hpc] at hact
   | swapNext => exact mu_swapNext h hl hpc hs
   | storeIndex => exact mu_storeIndex h hl hpc hs
   | claimLoad => exact mu_claimLoad h hl hpc hs
@@ -399,38 +418,60 @@ theorem BusyRun.append {r1 r2 : List (Nat × Nat)} {s1 s2 s3 : State} (h1 : Busy
 theorem step_isSome (hl : s.threads[t]? = some l) (c : Nat) : ∃ s', step s t c = some s' := by
   cases hpc : l.pc <;> simp only [step, hl, hpc] <;> (repeat' split) <;> exact ⟨_, rfl⟩
 
-/-- number of threads at an entry CAS -/
-def E (s : State) : Nat := s.threads.countP isEntry
+/-- steps the threads on their way in still need -/
+def E (s : State) : Nat := (s.threads.map epot).sum
 
+theorem sum_map_set {α} {f : α → Nat} {l : List α} {t : Nat} {a x : α} (hl : l[t]? = some a) :
+    ((l.set t x).map f).sum + f a = (l.map f).sum + f x := by
+  induction l generalizing t with
+  | nil => simp at hl
+  | cons y l ih =>
+    cases t with
+    | zero => simp at hl; subst hl; simp; omega
+    | succ t =>
+      simp at hl
+      have := ih hl
+      simp only [List.set_cons_succ, List.map_cons, List.sum_cons]; omega
+
+theorem E_eq_zero_iff : E s = 0 ↔ ∀ l ∈ s.threads, isEntry l = false := by
+  simp only [E, isEntry]
+  induction s.threads with
+  | nil => simp
+  | cons y l ih => simp [Nat.add_eq_zero_iff, ih]
+
+/-- a step of a thread on its way in brings it closer to the machinery (or back to `idle`) -/
 theorem step_entry {c : Nat} (hl : s.threads[t]? = some l) (he : isEntry l = true)
-    (hs : step s t c = some s') : ∃ l', s'.threads = s.threads.set t l' ∧ isEntry l' = false := by
-  cases hpc : l.pc <;> simp [isEntry, hpc] at he
+    (hs : step s t c = some s') : ∃ l', s'.threads = s.threads.set t l' ∧ epot l' < epot l := by
+  cases hpc : l.pc <;> simp [isEntry, epot, hpc] at he
   all_goals
     simp only [step, hl, hpc] at hs
-    (repeat' split at hs) <;> (injection hs with hs; subst hs; exact ⟨_, rfl, rfl⟩)
+    (repeat' split at hs) <;>
+      (injection hs with hs; subst hs; exact ⟨_, rfl, by simp [epot, hpc]⟩)
 
-theorem E_of_step {l'} (hl : s.threads[t]? = some l) (hth : s'.threads = s.threads.set t l')
-    (he : isEntry l' = false) : E s' + (if isEntry l then 1 else 0) = E s := by
-  have := countP_set_add (p := isEntry) (x := l') hl
-  simp only [E, hth]; simp [he] at this; omega
+theorem E_of_step {l'} (hl : s.threads[t]? = some l) (hth : s'.threads = s.threads.set t l') :
+    E s' + epot l = E s + epot l' := by
+  have := sum_map_set (f := epot) (x := l') hl
+  simp only [E, hth]; omega
 
-/-- phase 1: let every thread that sits at an entry CAS perform it -/
+/-- phase 1: let every thread that is on its way in go all the way (in, or back to `idle`) -/
 theorem drain_entries {n nthreads stride : Nat} (hr : Reachable n nthreads stride s) :
     ∃ r s1, BusyRun s r s1 ∧ Reachable n nthreads stride s1 ∧ E s1 = 0 := by
   generalize hk : E s = k
-  induction k generalizing s with
-  | zero => exact ⟨[], s, BusyRun.nil s, hr, hk⟩
-  | succ k ih =>
-    have hpos : 0 < s.threads.countP isEntry := by simp only [E] at hk; omega
-    obtain ⟨l, hmem, he⟩ := List.countP_pos_iff.mp hpos
-    obtain ⟨t, hl⟩ := List.mem_iff_getElem?.mp hmem
-    obtain ⟨s', hs⟩ := step_isSome hl 0
-    obtain ⟨l', hth, he'⟩ := step_entry hl he hs
-    have hE := E_of_step hl hth he'
-    simp only [he, if_true] at hE
-    obtain ⟨r, s1, hrun, hr1, h0⟩ := ih (Reachable.step t 0 hr hs) (by omega)
-    have hne : l.pc ≠ .idle := by intro h; simp [isEntry, h] at he
-    exact ⟨_, s1, BusyRun.cons hl hne hs hrun, hr1, h0⟩
+  induction k using Nat.strongRecOn generalizing s with
+  | _ k ih =>
+    by_cases h0 : E s = 0
+    · exact ⟨[], s, BusyRun.nil s, hr, h0⟩
+    · have : ¬ ∀ l ∈ s.threads, isEntry l = false := fun h => h0 (E_eq_zero_iff.mpr h)
+      simp only [Classical.not_forall] at this
+      obtain ⟨l, hmem, he⟩ := this
+      have he : isEntry l = true := by simpa using he
+      obtain ⟨t, hl⟩ := List.mem_iff_getElem?.mp hmem
+      obtain ⟨s', hs⟩ := step_isSome hl 0
+      obtain ⟨l', hth, he'⟩ := step_entry hl he hs
+      have hE := E_of_step hl hth
+      obtain ⟨r, s1, hrun, hr1, h0⟩ := ih (E s') (by omega) (Reachable.step t 0 hr hs) rfl
+      have hne : l.pc ≠ .idle := by intro h; simp [isEntry, epot, h] at he
+      exact ⟨_, s1, BusyRun.cons hl hne hs hrun, hr1, h0⟩
 
 /-- phase 2: run the threads inside the machinery until none is left -/
 theorem drain_active {n nthreads stride : Nat} (hst : 1 ≤ stride)
@@ -444,16 +485,18 @@ theorem drain_active {n nthreads stride : Nat} (hst : 1 ≤ stride)
       intro l hmem
       have hq : quiet l = true := by
         have := List.countP_eq_zero.mp h0 l hmem; simpa using this
-      have he : isEntry l = false := by
-        have := List.countP_eq_zero.mp hE l hmem; simpa using this
-      unfold quiet at hq; unfold isEntry at he
+      have he : isEntry l = false := E_eq_zero_iff.mp hE l hmem
+      unfold quiet at hq; unfold isEntry epot at he
       cases hpc : l.pc <;> simp_all
     · obtain ⟨l, hmem, hact⟩ := List.countP_pos_iff.mp hpos
       have hact : quiet l = false := by simpa using hact
       obtain ⟨t, hl⟩ := List.mem_iff_getElem?.mp hmem
       obtain ⟨s', hs⟩ := step_isSome hl 0
       obtain ⟨hlt, l', hth, he'⟩ := mu_decreases_inv hr.inv hst hl hact hs
-      have hE' := E_of_step hl hth he'
+      have hE' := E_of_step hl hth
+      have he0 : epot l = 0 := by
+        have := E_eq_zero_iff.mp hE l hmem; simpa [isEntry] using this
+      have he1 : epot l' = 0 := by simpa [isEntry] using he'
       have hr' := Reachable.step t 0 hr hs
       obtain ⟨r, s2, hrun, hr2, hidle⟩ := ih (mu s') (by omega) hr' (by omega) rfl
       have hne : l.pc ≠ .idle := by intro h; simp [quiet, h] at hact
